@@ -309,7 +309,8 @@ class C07(Property):
             'query, fragment) and 1-4 references, each navigated from the previous result; observed: to_text() of '
             'every result, the base before/after, normalize() applied twice. Exhaustive: every reference with <= 3 '
             '(thorough: <= 5) segments over {., .., empty, a, b;p} x leading slash x {no query, ?, ?y=1} x {no '
-            'fragment, #, #s} against 8 base shapes (quick: also 4 segments x {no query, ?y=1}); plus seeded random chains over a wider segment alphabet, absolute '
+            'fragment, #, #s} against 8 base shapes (quick: also 4 segments x {no query, ?y=1}); all pairs (thorough: '
+            'triples) over a 17-spelling segment alphabet with dot look-alikes against 3 bases; plus seeded random chains over a wider segment alphabet, absolute '
             'references, adversarial (deep .. runs, empty-segment runs, dot look-alikes) and the RFC 3986 5.4 '
             'examples (corpus). Non-trivial = some reference has a non-empty path containing a dot or empty segment, '
             'or is query-/fragment-only, and the RFC oracle judged the step; distinct = distinct history.')
@@ -398,6 +399,12 @@ class C07(Property):
                 for path in sorted(set(self.exhaustive_refs(4, SEGS_SMALL)) - set(paths)):
                     for q in (None, 'y=1'):
                         yield {'base': b, 'refs': [compact({'path': path, 'query': q})], 'as_url': 0}
+        # dot look-alikes and other segment spellings, every pair (thorough: triple)
+        for b in (BASES[0], BASES[1], BASES[3]):
+            for path in sorted(set(self.exhaustive_refs(3 if self.thorough else 2, SEGS_WIDE))):
+                if not path.startswith('/') and ':' in path.split('/')[0]:
+                    continue     # would be a scheme
+                yield {'base': b, 'refs': [compact({'path': path})], 'as_url': 0}
         # odd bases x short references; absolute / odd references x all bases
         short = sorted(set(self.exhaustive_refs(2, SEGS_SMALL)))
         for b in ODD_BASES:
@@ -408,10 +415,10 @@ class C07(Property):
             for r in ABS_REFS + ODD_REFS:
                 for au in (0, 1):
                     yield {'base': b, 'refs': [r], 'as_url': au}
-        n_rand = 150000 if self.thorough else 8000
+        n_rand = 150000 if self.thorough else 20000
         for i in range(n_rand):
             yield self.random_case(rng)
-        for c in self.adversarial(rng, 10000 if self.thorough else 1000):
+        for c in self.adversarial(rng, 10000 if self.thorough else 3000):
             yield c
 
     def deep_cases(self, budget_s):
@@ -616,6 +623,7 @@ class C07(Property):
             # the RFC (the implementation's text need not parse back to the object it came from)
             kind = self.step_in_domain(cur, rt) if synced else None
             self.stats['step_' + str(kind)] = self.stats.get('step_' + str(kind), 0) + 1
+            self.count_shape(rt)
             if rfc_parse(rt)[0] is None:
                 # the result contains no '.' or '..' segments and stays under the root
                 if [s for s in gd['parts'] if s in ('.', '..')]:
@@ -642,10 +650,35 @@ class C07(Property):
             else:
                 synced = False
                 cur = got
+        self.stats['histories_len_%d' % min(len(case['refs']), 4)] = self.stats.get('histories_len_%d' % min(len(case['refs']), 4), 0) + 1
+        if case.get('as_url'):
+            self.stats['dest_passed_as_URL_object'] = self.stats.get('dest_passed_as_URL_object', 0) + 1
         self._nt = judged > 0 and any(
             (full(r)['path'] == '' or any(s in ('.', '..', '') for s in full(r)['path'].split('/')[:-1])
              or full(r)['path'].split('/')[-1] in ('.', '..')) for r in case['refs'])
         return None
+
+    def count_shape(self, ref_text):
+        st = self.stats
+        rs, ra, rp, rq, rfr = rfc_parse(ref_text)
+
+        def bump(k):
+            st[k] = st.get(k, 0) + 1
+        if rs is not None or ra is not None:
+            bump('ref_with_scheme_or_authority')
+        elif rp == '':
+            bump('ref_empty' if rq is None and rfr is None else 'ref_query_only' if rq is not None else 'ref_fragment_only')
+        else:
+            bump('ref_path_absolute' if rp.startswith('/') else 'ref_path_relative')
+            segs = rp.split('/')
+            if '..' in segs:
+                bump('ref_has_dotdot')
+            if '.' in segs:
+                bump('ref_has_dot')
+            if '' in segs[1:-1] or (not rp.startswith('/') and segs[0] == '' and len(segs) > 1):
+                bump('ref_has_empty_segment')
+            if segs[-1] in ('.', '..', ''):
+                bump('ref_ends_in_dot_or_slash')
 
     def nontrivial(self, case, obs):
         return getattr(self, '_nt', False)
